@@ -41,7 +41,9 @@ def main():
             rep["mismatches"].append(dict(key=key, **d))
 
     settings = [dict(POP=7.8e9, KD=2100, FD=47, PD=51), dict(POP=1e6 / 63.0 * 1e3, KD=2100, FD=47, PD=51),
-                dict(POP=1234, KD=1, FD=1, PD=1)]
+                dict(POP=1234, KD=1, FD=1, PD=1),
+                # populations that are not whole numbers (a table cell after a unit change: Senegal's is 16743929.999999998)
+                dict(POP=1500.5, KD=2100, FD=47, PD=51), dict(POP=16743929.999999998, KD=2100, FD=47, PD=51)]
     while len(settings) < n_set:
         settings.append(dict(POP=10 ** rng.uniform(2, 10.3), KD=rng.uniform(800, 4000), FD=rng.uniform(5, 150),
                              PD=rng.uniform(5, 150)))
@@ -163,6 +165,29 @@ def main():
             bk = pf.in_units_bil_kcals_thou_tons_thou_tons_per_month()
             if not (rel(bk.kcals, req.kcals) and rel(bk.fat, req.fat) and rel(bk.protein, req.protein)):
                 bad("anchor:back_to_base", dict(par=par))
+        # ... and on the conversions the result extraction does by hand (grazing milk: the population's exact requirement is the
+        # population, in billions of people fed, in all three nutrients - and what the conversion path gives for the same amounts)
+        try:
+            from src.optimizer.extract_results import Extractor
+            cv = Food.conversions
+            ex_ = Extractor(dict(NMONTHS=2, KCALS_MONTHLY=cv.kcals_monthly, FAT_MONTHLY=cv.fat_monthly, PROTEIN_MONTHLY=cv.protein_monthly,
+                                 BILLION_KCALS_NEEDED=cv.billion_kcals_needed, THOU_TONS_FAT_NEEDED=cv.thou_tons_fat_needed,
+                                 THOU_TONS_PROTEIN_NEEDED=cv.thou_tons_protein_needed, MEAT_FRACTION_FAT=0.1, MEAT_FRACTION_PROTEIN=0.2))
+            from types import SimpleNamespace as NS_
+            ex_.constants["MEAT_FRACTION_FAT"], ex_.constants["MEAT_FRACTION_PROTEIN"] = req.fat / req.kcals, req.protein / req.kcals
+            solved = [NS_(varValue=req.kcals), NS_(varValue=req.kcals)]   # (what a solved LP variable looks like to the extractor)
+            ex_.extract_meat_milk_results(solved, [req.kcals] * 2, [req.fat] * 2, [req.protein] * 2)
+            gen = ex_.extract_generic_results(solved, 1.0, req.fat / req.kcals, req.protein / req.kcals, ex_.constants)
+            for nm, gv in (("kcals", ex_.milk.kcals), ("fat", ex_.milk.fat), ("protein", ex_.milk.protein),
+                           ("meat:kcals", ex_.meat.kcals), ("meat:fat", ex_.meat.fat), ("meat:protein", ex_.meat.protein),
+                           ("generic:kcals", gen.kcals), ("generic:fat", gen.fat), ("generic:protein", gen.protein)):
+                rep["anchor_checks"] += 1
+                if not all(rel(g_, par["POP"] / 1e9) for g_ in np.asarray(gv, dtype=float)):
+                    bad("anchor:extracted:%s" % nm, dict(got=[float(g_) for g_ in np.asarray(gv, dtype=float)], want=par["POP"] / 1e9, par=par))
+            if list(ex_.milk.units) != ["billion people fed each month"] * 3:
+                bad("anchor:extracted_milk:units", dict(units=list(ex_.milk.units)))
+        except BaseException as ex:  # noqa
+            bad("anchor:extracted_milk:exception", dict(exc=repr(ex)[:160], par=par))
         # the named wrappers are the generic conversion to their three target units - also for a series of small amounts
         tiny = Food(np.array([2e-3, 3.3e-7, 41.0]), np.array([1e-4, 7.7e-8, 3.0]), np.array([5e-5, 1.1e-8, 2.0]),
                     "billion kcals each month", "thousand tons each month", "thousand tons each month")
